@@ -15,7 +15,8 @@ bad = []
 for d in todo:
     patch = os.path.join(base, d, "patch.diff")
     if benign:
-        props = ["all"]
+        # BENIGN_PROPS=C10,C11 restricts the run to some checks (after a change to those checks only)
+        props = os.environ["BENIGN_PROPS"].split(",") if os.environ.get("BENIGN_PROPS") else ["all"]
     else:
         meta = json.load(open(os.path.join(base, d, "meta.json")))
         props = meta["caught_by"] or [meta["property"]]
